@@ -1,6 +1,6 @@
 ------------------------------ MODULE Conf_RC2 ------------------------------
 EXTENDS RC2, Json, IOUtils
-VARIABLES l, inst
+VARIABLES tpos, inst
 Rec == ndJsonDeserialize(IOEnv.TRACE)
 OSched(t, k, x) == RC2Sched(t, k, x)
 OEnc(ks, b) == RC2Enc(ks, b)
